@@ -12,7 +12,7 @@
    else is changed. *)
 From Coq Require Import List String Ascii Bool Arith Lia.
 From Spec Require Import Base.Json Base.JsonFacts Base.Url Base.UrlFacts Codec.Types Codec.Codec
-  Expand.Expand Expand.ExpandFacts Expand.ExpandSim Expand.ExpandSimCheck Expand.ExpandCycle Expand.ExpandElem Expand.ExpandTermG Expand.ExpandChain.
+  Expand.Expand Expand.ExpandFacts Expand.ExpandSim Expand.ExpandSimCheck Expand.ExpandCycle Expand.ExpandElem Expand.ExpandTermG Expand.ExpandComplete Expand.ExpandChain.
 Import ListNotations.
 Local Open Scope string_scope.
 
@@ -411,6 +411,195 @@ Proof.
   split; [exact Hs4|]. exists m1, m2, m3. eexists. repeat split; eassumption || reflexivity.
 Qed.
 
+(* ---------- ... and ExpandSpec RETURNS when every reference is resolvable (C04, C08) ---------- *)
+Hypothesis GE_resolvable : forall kind b m, GE kind b m -> get_str "$ref" m <> "" ->
+  exists nref b1 tm br, nuri (get_str "$ref" m) b = POk nref /\
+    sem_target_k E docs cwd kind (get_str "$ref" m) b = Some (b1, JObj tm) /\ new_ref (s2l b) = POk br.
+Hypothesis fuel_ok : forall kind b m nref, GE kind b m -> get_str "$ref" m <> "" -> nuri (get_str "$ref" m) b = POk nref -> rk nref < fuel.
+Hypothesis Hfollow_total : forall s rr b t, G b t -> St s -> Coh cwd rr b -> exists s' t', follow s [] rr b t = Done (s', t').
+Hypothesis Hwalk_total : forall s k v rr, DefKey k -> G ctx_base v -> St s -> Coh cwd rr ctx_base ->
+  exists s' v', walk E docs cwd OP ctx_base live follow v s ["#/definitions/" ++ k] rr ctx_base = Done (s', v').
+
+Lemma por_total kind s rroot base j : PorIn kind base j -> St s -> Coh cwd rroot base ->
+  exists s' j', expand_por E docs cwd OP live follow fuel s rroot base kind j = Done (s', j') /\ St s'.
+Proof.
+  intros Hin Hs Hcoh.
+  assert (Hex : exists s' j', expand_por E docs cwd OP live follow fuel s rroot base kind j = Done (s', j')).
+  { destruct j as [| | | | |m]; try (eexists; eexists; reflexivity). cbn [PorIn] in Hin. unfold expand_por.
+    assert (Hab : above rk [] base m) by (intros p nref []).
+    destruct (deref_succeeds E docs cwd OP live rid live_served GE GE_holder GE_target GE_same MD fresh rk GE_rank GE_resolvable
+                kind fuel s [] rroot base m Hin (St_Inv _ Hs) Hcoh (fun x Hx => St_memo _ _ Hs Hx) Hab
+                (fun nref Hr Hn => fuel_ok _ _ _ _ Hin Hr Hn)) as [s1 [m1 [rr1 [b1 Hd]]]].
+    rewrite Hd. cbn [ebind].
+    destruct (deref_top _ _ _ _ _ _ _ _ _ Hin Hs Hcoh Hd) as [Hs1 [Hc1 [Hend [Hch Hg1]]]].
+    destruct (assoc "schema" (remove_key "$ref" m1)) as [[| | | | |sm]|] eqn:Esch; try (eexists; eexists; reflexivity).
+    destruct (Hfollow_total _ _ _ _ (GE_schema _ _ _ _ Hg1 Hend Esch) Hs1 Hc1) as [s3 [v' Hf]]. rewrite Hf. cbn [ebind fst snd].
+    eexists; eexists; reflexivity. }
+  destruct Hex as [s' [j' H]]. exists s', j'. split; [exact H|]. exact (proj1 (por_step _ _ _ _ _ _ _ Hin Hs Hcoh H)).
+Qed.
+
+Lemma fold_por_total kind rroot base : forall l s out, Forall (PorIn kind base) l -> St s -> Coh cwd rroot base ->
+  exists s' l', fold_por E docs cwd OP live follow fuel l s rroot base kind out = Done (s', l') /\ St s'.
+Proof.
+  induction l as [|x r IH]; intros s out Hall Hs Hcoh; cbn [fold_por]; [eexists; eexists; split; [reflexivity|exact Hs]|].
+  inversion Hall as [|? ? Hx0 Hr0]; subst.
+  destruct (por_total kind s rroot base x Hx0 Hs Hcoh) as [s1 [x' [Hx Hs1]]]. rewrite Hx. cbn [ebind fst snd].
+  apply IH; assumption.
+Qed.
+Lemma fold_por_map_total kind rroot base : forall l s out, Forall (EntryIn kind base) l -> St s -> Coh cwd rroot base ->
+  exists s' l', fold_por_map E docs cwd OP live follow fuel l s rroot base kind out = Done (s', l') /\ St s'.
+Proof.
+  induction l as [|[k x] r IH]; intros s out Hall Hs Hcoh; cbn [fold_por_map]; [eexists; eexists; split; [reflexivity|exact Hs]|].
+  inversion Hall as [|? ? Hx0 Hr0]; subst. unfold EntryIn in Hx0. cbn [fst snd] in Hx0.
+  destruct (has_x_prefix_ci k) eqn:Ex; [apply IH; assumption|].
+  destruct (por_total kind s rroot base x (Hx0 eq_refl) Hs Hcoh) as [s1 [x' [Hx Hs1]]]. rewrite Hx. cbn [ebind fst snd].
+  apply IH; assumption.
+Qed.
+
+Lemma op_total rroot base j s : OpIn base j -> St s -> Coh cwd rroot base ->
+  exists s' j', expand_operation E docs cwd OP live follow fuel s rroot base j = Done (s', j') /\ St s'.
+Proof.
+  intros Hin Hs Hcoh.
+  assert (Hex : exists s' j', expand_operation E docs cwd OP live follow fuel s rroot base j = Done (s', j')).
+  { destruct j as [| | | | |m]; try (eexists; eexists; reflexivity). destruct Hin as [Hpin Hrin]. unfold expand_operation.
+    assert (H1 : exists s1 ma, match assoc "parameters" m with
+                 | Some (JArr ps) => ebind (fold_por E docs cwd OP live follow fuel ps s rroot base "Parameter" [])
+                                           (fun sp => Done (fst sp, set_member "parameters" (JArr (snd sp)) m))
+                 | _ => Done (s, m) end = Done (s1, ma)).
+    { destruct (assoc "parameters" m) as [[| | | |ps|]|] eqn:Ep; try (eexists; eexists; reflexivity).
+      destruct (fold_por_total "Parameter" rroot base ps s [] (Hpin ps Ep) Hs Hcoh) as [s1 [ps' [Hf _]]]. rewrite Hf. eexists; eexists; reflexivity. }
+    destruct H1 as [s1 [ma H1]]. rewrite H1. cbn [ebind fst snd].
+    destruct (params_step _ _ _ _ _ _ Hpin Hs Hcoh H1) as [Hs1 Hprel].
+    assert (Hresp : assoc "responses" ma = assoc "responses" m).
+    { unfold params_rel in Hprel. destruct (assoc "parameters" m) as [[| | | |ps|]|]; try (subst; reflexivity).
+      destruct Hprel as [ps' [-> _]]. apply assoc_set_member_neq. discriminate. }
+    rewrite Hresp. destruct (assoc "responses" m) as [[| | | | |rs]|] eqn:Er; try (eexists; eexists; reflexivity).
+    destruct (fold_por_map_total "Response" rroot base rs s1 [] (Hrin rs eq_refl) Hs1 Hcoh) as [s2 [rs' [Hf _]]]. rewrite Hf. eexists; eexists; reflexivity. }
+  destruct Hex as [s' [j' H]]. exists s', j'. split; [exact H|]. exact (proj1 (op_step _ _ _ _ _ _ Hin Hs Hcoh H)).
+Qed.
+
+Lemma ops_fold_total rroot base : forall names s m, NoDup names -> OpsIn names base m -> St s -> Coh cwd rroot base ->
+  exists s' m', fold_left (fun acc op =>
+               ebind acc (fun sm =>
+                 match assoc op (snd sm) with
+                 | Some o => ebind (expand_operation E docs cwd OP live follow fuel (fst sm) rroot base o)
+                                   (fun so => Done (fst so, set_member op (snd so) (snd sm)))
+                 | None => Done sm
+                 end)) names (Done (s, m)) = Done (s', m') /\ St s'.
+Proof.
+  induction names as [|op r IH]; intros s m Hnd Hin Hs Hcoh; cbn [fold_left]; [eexists; eexists; split; [reflexivity|exact Hs]|].
+  inversion Hnd as [|? ? Hnotin Hnd']; subst. cbn [ebind fst snd].
+  assert (Hrest : forall o', OpsIn r base (set_member op o' m)).
+  { intros o' op2 o2 Hop2 Ha. apply (Hin op2 o2); [right; exact Hop2|].
+    rewrite assoc_set_member_neq in Ha; [exact Ha|]. intros ->. exact (Hnotin Hop2). }
+  destruct (assoc op m) as [o|] eqn:Eo.
+  - destruct (op_total rroot base o s (Hin op o (or_introl eq_refl) Eo) Hs Hcoh) as [s2 [o' [Hop Hs2]]]. rewrite Hop. cbn [ebind fst snd].
+    apply IH; [exact Hnd'|apply Hrest|exact Hs2|exact Hcoh].
+  - apply IH; [exact Hnd'| |exact Hs|exact Hcoh]. intros op2 o2 Hop2 Ha. apply (Hin op2 o2); [right; exact Hop2|exact Ha].
+Qed.
+
+Lemma pi_total s rroot base j : PorIn "PathItem" base j -> St s -> Coh cwd rroot base ->
+  exists s' j', expand_path_item E docs cwd OP live follow fuel s rroot base j = Done (s', j') /\ St s'.
+Proof.
+  intros Hin Hs Hcoh.
+  assert (Hex : exists s' j', expand_path_item E docs cwd OP live follow fuel s rroot base j = Done (s', j')).
+  { destruct j as [| | | | |m]; try (eexists; eexists; reflexivity). cbn [PorIn] in Hin. unfold expand_path_item.
+    assert (Hab : above rk [] base m) by (intros p nref []).
+    destruct (deref_succeeds E docs cwd OP live rid live_served GE GE_holder GE_target GE_same MD fresh rk GE_rank GE_resolvable
+                "PathItem" fuel s [] rroot base m Hin (St_Inv _ Hs) Hcoh (fun x Hx => St_memo _ _ Hs Hx) Hab
+                (fun nref Hr Hn => fuel_ok _ _ _ _ Hin Hr Hn)) as [s1 [m1 [rr1 [b1 Hd]]]].
+    rewrite Hd. cbn [ebind].
+    destruct (deref_top _ _ _ _ _ _ _ _ _ Hin Hs Hcoh Hd) as [Hs1 [Hc1 [Hend [Hch Hg1]]]].
+    destruct (GE_pi _ _ Hg1 Hend) as [Hpin Hoin].
+    assert (H1 : exists s2 ma, match assoc "parameters" (remove_key "$ref" m1) with
+                 | Some (JArr ps) => ebind (fold_por E docs cwd OP live follow fuel ps s1 rr1 b1 "Parameter" [])
+                                           (fun sp => Done (fst sp, set_member "parameters" (JArr (snd sp)) (remove_key "$ref" m1)))
+                 | _ => Done (s1, remove_key "$ref" m1) end = Done (s2, ma)).
+    { destruct (assoc "parameters" (remove_key "$ref" m1)) as [[| | | |ps|]|] eqn:Ep; try (eexists; eexists; reflexivity).
+      destruct (fold_por_total "Parameter" rr1 b1 ps s1 [] (Hpin ps Ep) Hs1 Hc1) as [s2 [ps' [Hf _]]]. rewrite Hf. eexists; eexists; reflexivity. }
+    destruct H1 as [s2 [ma H1]]. rewrite H1.
+    destruct (params_step _ _ _ _ _ _ Hpin Hs1 Hc1 H1) as [Hs2 Hprel].
+    assert (Hoin' : OpsIn op_names b1 ma).
+    { intros op o Hop Ha. apply (Hoin op o Hop). unfold params_rel in Hprel.
+      destruct (assoc "parameters" (remove_key "$ref" m1)) as [[| | | |ps|]|]; try (subst; exact Ha).
+      destruct Hprel as [ps' [-> _]]. rewrite assoc_set_member_neq in Ha; [exact Ha|]. intros Heq. exact (op_name_not_parameters op Hop (eq_sym Heq)). }
+    destruct (ops_fold_total rr1 b1 op_names s2 ma op_names_nodup Hoin' Hs2 Hc1) as [s3 [m3 [Hops _]]]. rewrite Hops. cbn [ebind fst snd].
+    eexists; eexists; reflexivity. }
+  destruct Hex as [s' [j' H]]. exists s', j'. split; [exact H|]. exact (proj1 (pi_step _ _ _ _ _ _ Hin Hs Hcoh H)).
+Qed.
+
+Section OneSectionTotal.
+Variable f : st -> string -> json -> eres (st * json).
+Variable P : string -> json -> Prop.
+Hypothesis Hf : forall s key v, P key v -> St s -> exists s' v', f s key v = Done (s', v') /\ St s'.
+Lemma sec_fold_total : forall vm s acc, Forall (fun kv => P (fst kv) (snd kv)) vm -> St s ->
+  exists s' out, fold_left (fun acc2 dv => ebind acc2 (fun so2 =>
+               ebind (f (fst so2) (fst dv) (snd dv)) (fun sv => Done (fst sv, (snd so2 ++ [(fst dv, snd sv)])%list))))
+            vm (Done (s, acc)) = Done (s', out) /\ St s'.
+Proof.
+  induction vm as [|[k v] r IH]; intros s acc Hall Hs; cbn [fold_left]; [eexists; eexists; split; [reflexivity|exact Hs]|].
+  inversion Hall as [|? ? Hx Hr]; subst. cbn [fst snd] in Hx. cbn [ebind fst snd].
+  destruct (Hf s k v Hx Hs) as [s1 [v' [Hfv Hs1]]]. rewrite Hfv. cbn [ebind fst snd]. apply IH; assumption.
+Qed.
+Lemma section_total k s m : (forall vm, assoc k m = Some (JObj vm) -> Forall (fun kv => P (fst kv) (snd kv)) vm) -> St s ->
+  exists s' m', section_step k f (Done (s, m)) = Done (s', m') /\ St s'.
+Proof.
+  intros Hin Hs. unfold section_step. cbn [ebind fst snd].
+  destruct (assoc k m) as [[| | | | |vm]|] eqn:Ek; try (eexists; eexists; split; [reflexivity|exact Hs]).
+  destruct (sec_fold_total vm s [] (Hin vm eq_refl) Hs) as [s1 [out [Hfold Hs1]]]. rewrite Hfold. cbn [ebind fst snd].
+  eexists; eexists; split; [reflexivity|exact Hs1].
+Qed.
+End OneSectionTotal.
+
+(* ExpandSpec returns: no error, no exhausted fuel, nothing outside the modelled fragment *)
+Theorem expand_spec_total root_url m s :
+  RootIn m -> St s -> Coh cwd (Some root_url) ctx_base ->
+  exists s' out, expand_spec_with E docs cwd OP ctx_base live follow fuel root_url (JObj m) s = Done (s', out).
+Proof.
+  intros [Hdefs [Hpars [Hresps Hpaths]]] Hs Hcoh. unfold expand_spec_with. rewrite noskip.
+  set (fdef := fun (s : st) (k : string) (v : json) => walk E docs cwd OP ctx_base live follow v s ["#/definitions/" ++ k] (Some root_url) ctx_base).
+  destruct (section_total fdef (fun k v => DefKey k /\ G ctx_base v)
+              (fun s0 key v Hp Hs0 =>
+                 match Hwalk_total s0 key v (Some root_url) (proj1 Hp) (proj2 Hp) Hs0 Hcoh with
+                 | ex_intro _ s0' (ex_intro _ v' Hw) => ex_intro _ s0' (ex_intro _ v' (conj Hw (proj1 (Hwalk s0 key v (Some root_url) s0' v' (proj1 Hp) (proj2 Hp) Hs0 Hcoh Hw))))
+                 end)
+              "definitions" s m Hdefs Hs) as [s1 [m1 [H1 Hs1]]].
+  rewrite H1.
+  destruct (section_sim fdef (fun _ v v' => Q ctx_base v v') (fun k v => DefKey k /\ G ctx_base v)
+              (fun s0 key v s0' v' Hp Hs0 Hw => Hwalk s0 key v (Some root_url) s0' v' (proj1 Hp) (proj2 Hp) Hs0 Hcoh Hw)
+              "definitions" s m s1 m1 Hdefs Hs H1) as [_ Hr1].
+  assert (Ha1 : forall k', "definitions" <> k' -> assoc k' m1 = assoc k' m) by (intros k' Hne; exact (sec_rel_other _ _ _ _ _ Hr1 Hne)).
+  set (fpar := fun (s : st) (_ : string) (v : json) => expand_por E docs cwd OP live follow fuel s (Some root_url) ctx_base "Parameter" v).
+  destruct (section_total fpar (fun _ v => PorIn "Parameter" ctx_base v)
+              (fun s0 key v Hp Hs0 => por_total "Parameter" s0 (Some root_url) ctx_base v Hp Hs0 Hcoh) "parameters" s1 m1) as [s2 [m2 [H2 Hs2]]]; [|exact Hs1|].
+  { intros vm Hvm. rewrite Ha1 in Hvm by discriminate. exact (Hpars vm Hvm). }
+  rewrite H2.
+  destruct (section_sim fpar (fun _ => por_rel "Parameter" ctx_base) (fun _ v => PorIn "Parameter" ctx_base v)
+              (fun s0 key v s0' v' Hp Hs0 Hw => por_step "Parameter" s0 (Some root_url) ctx_base v s0' v' Hp Hs0 Hcoh Hw)
+              "parameters" s1 m1 s2 m2) as [_ Hr2]; [|exact Hs1|exact H2|].
+  { intros vm Hvm. rewrite Ha1 in Hvm by discriminate. exact (Hpars vm Hvm). }
+  assert (Ha2 : forall k', "parameters" <> k' -> assoc k' m2 = assoc k' m1) by (intros k' Hne; exact (sec_rel_other _ _ _ _ _ Hr2 Hne)).
+  set (fres := fun (s : st) (_ : string) (v : json) => expand_por E docs cwd OP live follow fuel s (Some root_url) ctx_base "Response" v).
+  destruct (section_total fres (fun _ v => PorIn "Response" ctx_base v)
+              (fun s0 key v Hp Hs0 => por_total "Response" s0 (Some root_url) ctx_base v Hp Hs0 Hcoh) "responses" s2 m2) as [s3 [m3 [H3 Hs3]]]; [|exact Hs2|].
+  { intros vm Hvm. rewrite Ha2, Ha1 in Hvm by discriminate. exact (Hresps vm Hvm). }
+  rewrite H3.
+  destruct (section_sim fres (fun _ => por_rel "Response" ctx_base) (fun _ v => PorIn "Response" ctx_base v)
+              (fun s0 key v s0' v' Hp Hs0 Hw => por_step "Response" s0 (Some root_url) ctx_base v s0' v' Hp Hs0 Hcoh Hw)
+              "responses" s2 m2 s3 m3) as [_ Hr3]; [|exact Hs2|exact H3|].
+  { intros vm Hvm. rewrite Ha2, Ha1 in Hvm by discriminate. exact (Hresps vm Hvm). }
+  assert (Ha3 : forall k', "responses" <> k' -> assoc k' m3 = assoc k' m2) by (intros k' Hne; exact (sec_rel_other _ _ _ _ _ Hr3 Hne)).
+  set (fpath := fun (s : st) (k : string) (v : json) => if has_x_prefix_ci k then Done (s, v)
+                  else match v with JObj _ => expand_path_item E docs cwd OP live follow fuel s (Some root_url) ctx_base v | _ => Done (s, v) end).
+  destruct (section_total fpath (fun k v => has_x_prefix_ci k = false -> PorIn "PathItem" ctx_base v)) with (k := "paths") (s := s3) (m := m3) as [s4 [m4 [H4 Hs4]]].
+  { intros s0 key v Hp Hs0. unfold fpath. destruct (has_x_prefix_ci key) eqn:Ex; [eexists; eexists; split; [reflexivity|exact Hs0]|].
+    destruct v as [| | | | |pm]; try (eexists; eexists; split; [reflexivity|exact Hs0]).
+    exact (pi_total s0 (Some root_url) ctx_base (JObj pm) (Hp eq_refl) Hs0 Hcoh). }
+  { intros vm Hvm. rewrite Ha3, Ha2, Ha1 in Hvm by discriminate. exact (Hpaths vm Hvm). }
+  { exact Hs3. }
+  fold fpath. rewrite H4. cbn [ebind fst snd]. eexists; eexists; reflexivity.
+Qed.
+
 End SpecSim.
 
 (* ---------- the relation is monotone in what is known of the schemas ---------- *)
@@ -659,6 +848,77 @@ Proof.
               Hfollow (S d) s0 ["#/definitions/" ++ k] rr ctx_base v s0' v' Hg Hs0 Hc
                       (fun p Hp => match Hp with or_introl e => or_introl (eq_ind _ (fun q => In q bad0) Hk _ e) | or_intror f => match f with end end) Hw)
            root_url m s s' out (chk_root m Hroot) Hs Hcoh H).
+Qed.
+
+(* ---------- ... and returns ---------- *)
+Definition eresolvable_node (p : string * string * list (string * json)) : bool :=
+  let kind := fst (fst p) in let b := snd (fst p) in let m := snd p in
+  let ref := get_str "$ref" m in
+  if String.eqb ref "" then true
+  else is_pok (nuri ref b) && match sem_target_k E docs cwd kind ref b with Some (_, JObj _) => true | _ => false end
+       && is_pok (new_ref (s2l b)).
+Definition check_eresolvable : bool := forallb eresolvable_node enodes.
+
+Lemma chk_eresolvable : check_eresolvable = true -> forall kind b m, GE kind b m -> get_str "$ref" m <> "" ->
+  exists nref b1 tm br, nuri (get_str "$ref" m) b = POk nref /\
+    sem_target_k E docs cwd kind (get_str "$ref" m) b = Some (b1, JObj tm) /\ new_ref (s2l b) = POk br.
+Proof.
+  intros Hc kind b m Hg Hr. unfold check_eresolvable in Hc. rewrite forallb_forall in Hc. pose proof (Hc _ Hg) as H.
+  unfold eresolvable_node in H. cbn [fst snd] in H. apply String.eqb_neq in Hr. rewrite Hr in H.
+  apply andb_true_iff in H. destruct H as [H H3]. apply andb_true_iff in H. destruct H as [H1 H2].
+  destruct (nuri (get_str "$ref" m) b) as [nref| |]; try discriminate.
+  destruct (sem_target_k E docs cwd kind (get_str "$ref" m) b) as [[b1 [| | | | |tm]]|]; try discriminate.
+  destruct (new_ref (s2l b)) as [br| |]; try discriminate.
+  exists nref, b1, tm, br. repeat split.
+Qed.
+
+Lemma rank_of_lt fuel x : forallb (fun kr => Nat.ltb (snd kr) fuel) ranks = true -> 0 < fuel -> rank_of x < fuel.
+Proof.
+  intros Hall Hpos. unfold rank_of. destruct (assoc x ranks) as [n|] eqn:Ea; [|exact Hpos].
+  assert (Hin : In (x, n) ranks).
+  { clear Hall. induction ranks as [|[k v] r IH]; cbn [assoc] in Ea; [discriminate|]. destruct (String.eqb x k) eqn:Ek.
+    - apply String.eqb_eq in Ek. inversion Ea; subst. left. reflexivity.
+    - right. exact (IH Ea). }
+  rewrite forallb_forall in Hall. pose proof (Hall _ Hin) as H. cbn [snd] in H. apply Nat.ltb_lt. exact H.
+Qed.
+
+(* ExpandSpec on a checked graph in which every reference is resolvable RETURNS a result, from every consistent state,
+   when the fuel exceeds the number of references of the schema graph and the length of the chains *)
+Theorem checked_spec_total d root_url m s :
+  check_resolvable E docs cwd OP ctx_base rid nodes = true -> check_eresolvable = true ->
+  List.length (refs_of nodes) < d -> forallb (fun kr => Nat.ltb (snd kr) (S d)) ranks = true ->
+  check_root m = true -> St s -> Coh cwd (Some root_url) ctx_base ->
+  exists s' out, expand_spec E docs cwd OP ctx_base live d root_url (JObj m) s = Done (s', out).
+Proof.
+  intros Hres Heres Hlen Hranks Hroot Hs Hcoh. unfold expand_spec.
+  assert (Hfollow : forall d0 s0 ps rr b t s0' t', G b t -> St s0 -> Coh cwd rr b ->
+            PInv E docs cwd G bad0 ps (b, t) ->
+            exp E docs cwd OP ctx_base live d0 s0 ps rr b t = Done (s0', t') -> St s0' /\ sound_schema b t t').
+  { intros d0 s0 ps rr b t s0' t' Hg Hs0 Hc HP He.
+    destruct (checked_graph_cyc E docs cwd OP ctx_base rid nodes live bad0 Hck live_served strict noskip d0 s0 ps rr b t s0' t' Hg Hs0 Hc HP He) as [Hs0' Hok].
+    destruct (checked_graph_sim E docs cwd OP ctx_base rid nodes live Hck live_served strict d0 s0 ps rr b t s0' t' Hg (proj1 Hs0) Hc He) as [_ Hb].
+    split; [exact Hs0'|split; [exact Hb|exact Hok]]. }
+  assert (Htotal : forall d0 s0 ps rr b t, List.length (refs_of nodes) < d0 -> NoDup ps -> G b t -> St s0 -> Coh cwd rr b ->
+            exists s0' t', exp E docs cwd OP ctx_base live d0 s0 ps rr b t = Done (s0', t')).
+  { intros d0 s0 ps rr b t Hl Hnd Hg Hs0 Hc.
+    exact (checked_exp_succeeds E docs cwd OP ctx_base rid nodes live Hck Hres live_served strict d0 s0 ps rr b t Hnd Hl Hg (proj1 Hs0) Hc). }
+  apply (expand_spec_total E docs cwd OP ctx_base live rid live_served strict St (fun s0 Hs0 => proj1 Hs0) MD
+           (fun s0 x Hs0 Hx => proj2 Hs0 x Hx)
+           (fun s0 s0' Hs0 Hi Hm => conj Hi (fun x Hx => proj2 Hs0 x (eq_ind _ (fun l => In x l) Hx _ Hm)))
+           G (exp E docs cwd OP ctx_base live d) sound_schema
+           (fun s0 rr b t s0' t' Hg Hs0 Hc He => Hfollow d s0 [] rr b t s0' t' Hg Hs0 Hc (fun p Hp => match Hp with end) He)
+           GE (GEN_holder E docs cwd enodes nodes Hcke) (GEN_target E docs cwd enodes nodes Hcke) (GEN_same E docs cwd enodes nodes Hcke)
+           (GEN_schema E docs cwd enodes nodes Hcke) chk_fresh rank_of chk_rank (S d) chk_pi noskip
+           (fun k => In ("#/definitions/" ++ k) bad0)
+           (fun s0 k v rr s0' v' Hk Hg Hs0 Hc Hw =>
+              Hfollow (S d) s0 ["#/definitions/" ++ k] rr ctx_base v s0' v' Hg Hs0 Hc
+                      (fun p Hp => match Hp with or_introl e => or_introl (eq_ind _ (fun q => In q bad0) Hk _ e) | or_intror f => match f with end end) Hw)
+           (chk_eresolvable Heres)
+           (fun kind b m0 nref _ _ _ => rank_of_lt (S d) nref Hranks (Nat.lt_0_succ d))
+           (fun s0 rr b t Hg Hs0 Hc => Htotal d s0 [] rr b t Hlen (NoDup_nil _) Hg Hs0 Hc)
+           (fun s0 k v rr Hk Hg Hs0 Hc => Htotal (S d) s0 ["#/definitions/" ++ k] rr ctx_base v (Nat.lt_lt_succ_r _ _ Hlen)
+                                            (NoDup_cons _ (@in_nil string _) (NoDup_nil _)) Hg Hs0 Hc)
+           root_url m s (chk_root m Hroot) Hs Hcoh).
 Qed.
 End SpecCheck.
 
